@@ -34,11 +34,22 @@ def run(ctx, prop):
     # a real TCP client that stalls for several seconds in the middle of the replies, then resumes
     l3 = ctx.path("slow_log.ndjson")
     ctx.harness(["slow", "-out", l3, "-stall", "6500ms" if quick else "12s"], timeout=300)
+    # the reply ledger over every request type and argument class (cases from MC_Outbox!LedgerCases)
+    _, cases = ctx.generate("Gen_OutboxLedger", "Gen_OutboxLedger.cfg", "ledger_cases.ndjson", timeout=120)
+    cases.sort(key=lambda c: (c["variant"] != "ok", c["variant"], c["type"]))
+    cp = ctx.path("ledger_cases_sorted.ndjson")
+    with open(cp, "w") as f:
+        for c in cases:
+            f.write(json.dumps(c) + "\n")
+    l4 = ctx.path("sweep_log.ndjson")
+    ctx.harness(["sweep", "-cases", cp, "-out", l4], timeout=600)
+    ctx.notes["ledger_sweep_cases"] = len(cases)
     lp = ctx.path("log.ndjson")
     with open(lp, "w") as f:
         f.write(open(l1).read())
         f.write(open(l2).read())
         f.write(open(l3).read())
+        f.write(open(l4).read())
     viol, drift = ctx.validate("Trace_Outbox", "Trace_Outbox.cfg", lp, timeout=1200)
     nstress = sum(1 for line in open(l2) if '"ledger"' in line)
     ctx.cov["traces_validated_against_impl"] += len(scheds) + nstress
